@@ -4,7 +4,7 @@ import ast
 from ..cfg import witness
 from ..core import AnalysisError, u, walk_local, enclosing_stmt
 from ..lib import (construct, std_facts, def_of, facts_imply, calls_of_node,
-                   in_subtree, returns_of)
+                   in_subtree, returns_of, facts_at)
 from .c02 import eos, consuming_methods, CP, alternatives, indirect_callees
 from .common import instance_state
 
@@ -20,31 +20,114 @@ def run(ctx):
   g, facts = std_facts(prog, f)
   rets = [n for n in g.live_nodes() if n.kind == 'return' and n.ast.value is not None]
   ctx.expect_at_least('returns of _parse_selector', len(rets), 1)
-  flag = None
-  for n in walk_local(f.node):
-    if isinstance(n, ast.AugAssign) and isinstance(n.target, ast.Name):
-      flag = n.target.id
   joined = raw = None
   for n in walk_local(f.node):
     if isinstance(n, ast.Assign) and isinstance(n.value, ast.Call) and u(n.value.func) == "''.join":
       joined = u(n.targets[0])
     if isinstance(n, ast.Assign) and isinstance(n.value, ast.Subscript) and isinstance(n.value.slice, ast.Slice) and u(n.value.value) == 'line':
       raw = u(n.targets[0])
+  # roles: the '/'-components of the joined text
+  split_names, before_last, last = set(), set(), set()
+
+  def is_split_expr(e):
+    return isinstance(e, ast.Call) and isinstance(e.func, ast.Attribute) and e.func.attr == 'split' and u(e.func.value) == joined \
+        and len(e.args) == 1 and isinstance(e.args[0], ast.Constant) and e.args[0].value == '/'
+  for n in walk_local(f.node):
+    if isinstance(n, ast.Assign) and is_split_expr(n.value):
+      t = n.targets[0]
+      if isinstance(t, ast.Name):
+        split_names.add(t.id)
+      elif isinstance(t, ast.Tuple) and len(t.elts) == 2 and isinstance(t.elts[0], ast.Starred) and isinstance(t.elts[0].value, ast.Name) \
+          and isinstance(t.elts[1], ast.Name):
+        before_last.add(t.elts[0].value.id)
+        last.add(t.elts[1].id)
+
+  def is_parts(e):
+    return (isinstance(e, ast.Name) and e.id in split_names) or is_split_expr(e)
+
+  def is_before_last(e):
+    if isinstance(e, ast.Name) and e.id in before_last:
+      return True
+    return isinstance(e, ast.Subscript) and is_parts(e.value) and isinstance(e.slice, ast.Slice) and e.slice.lower is None \
+        and e.slice.step is None and e.slice.upper is not None and u(e.slice.upper) == '-1'
+
+  def is_last(e):
+    if isinstance(e, ast.Name) and e.id in last:
+      return True
+    return isinstance(e, ast.Subscript) and is_parts(e.value) and u(e.slice) == '-1'
+
+  def only_one(e):
+    t = u(e).replace(' ', '')
+    if isinstance(e, ast.Compare) and len(e.ops) == 1 and isinstance(e.ops[0], ast.Eq) and isinstance(e.left, ast.Call) and u(e.left.func) == 'len' \
+        and is_parts(e.left.args[0]) and u(e.comparators[0]) == '1':
+      return True
+    if isinstance(e, ast.UnaryOp) and isinstance(e.op, ast.Not) and isinstance(e.operand, ast.Name) and e.operand.id in before_last:
+      return True
+    if isinstance(e, ast.Compare) and len(e.ops) == 1 and isinstance(e.ops[0], ast.Eq) and isinstance(e.left, ast.Call) and u(e.left.func) == 'len' \
+        and isinstance(e.left.args[0], ast.Name) and e.left.args[0].id in before_last and u(e.comparators[0]) == '0':
+      return True
+    return False
+
+  def re_leaves(e, depth=0):
+    """Regex constants an expression can denote, with the condition under which MODULE_RE is chosen checked."""
+    if depth > 4:
+      return {'?'}
+    if isinstance(e, ast.IfExp):
+      t = u(e.test)
+      if t == 'allow_periods_in_scope' and u(e.body) == 'MODULE_RE' and u(e.orelse) == 'IDENTIFIER_RE':
+        return {'MODULE_RE@allow', 'IDENTIFIER_RE'}
+      if t == 'not allow_periods_in_scope' and u(e.orelse) == 'MODULE_RE' and u(e.body) == 'IDENTIFIER_RE':
+        return {'MODULE_RE@allow', 'IDENTIFIER_RE'}
+      return {'?'}
+    if isinstance(e, ast.Name) and e.id.isupper():
+      return {e.id}
+    if isinstance(e, ast.Name):
+      out = set()
+      defs = [a for a in walk_local(f.node) if isinstance(a, ast.Assign) and len(a.targets) == 1 and u(a.targets[0]) == e.id]
+      if not defs:
+        return {'?'}
+      for a in defs:
+        lv = re_leaves(a.value, depth + 1)
+        fs = facts_at(g, facts, a) or frozenset()
+        if lv == {'MODULE_RE'} and ('c', 'allow_periods_in_scope', True) in fs:
+          lv = {'MODULE_RE@allow'}
+        out |= lv
+      return out
+    return {'?'}
 
   def atom(e):
-    t = u(e)
-    if flag and t == flag:
-      return 'valid'
+    if isinstance(e, ast.Call) and u(e.func) == 'bool' and len(e.args) == 1:
+      e = e.args[0]
     if isinstance(e, ast.Compare) and len(e.ops) == 1 and isinstance(e.ops[0], ast.Eq) and {u(e.left), u(e.comparators[0])} == {raw, joined}:
       return 'raw_eq'
+    if isinstance(e, ast.Call) and u(e.func) == 'all' and len(e.args) == 1 and isinstance(e.args[0], (ast.GeneratorExp, ast.ListComp)) \
+        and len(e.args[0].generators) == 1 and not e.args[0].generators[0].ifs:
+      ge = e.args[0]
+      gen = ge.generators[0]
+      m = ge.elt
+      if isinstance(m, ast.Call) and isinstance(m.func, ast.Attribute) and m.func.attr == 'match' and len(m.args) == 1 \
+          and u(m.args[0]) == u(gen.target) and is_before_last(gen.iter) and re_leaves(m.func.value) == {'MODULE_RE@allow', 'IDENTIFIER_RE'}:
+        return 'scopes_match'
+      return None
+    if isinstance(e, ast.Call) and isinstance(e.func, ast.Attribute) and e.func.attr == 'match' and len(e.args) == 1 and is_last(e.args[0]) \
+        and re_leaves(e.func.value) == {'MODULE_RE'}:
+      return 'selector_match'
+    if isinstance(e, ast.BoolOp) and isinstance(e.op, ast.Or) and len(e.values) == 2:
+      a, b = e.values
+      if (u(a) == 'scoped' and only_one(b)) or (u(b) == 'scoped' and only_one(a)):
+        return 'scoped_ok'
     return None
+  labels = [('inner whitespace rejected (raw text == joined tokens)', 'raw_eq'),
+            ('every scope component matches the scope regex (identifier; dotted only where periods are allowed)', 'scopes_match'),
+            ('the last component matches the selector regex MODULE_RE', 'selector_match'),
+            ('scopes only where allowed', 'scoped_ok')]
   for n in rets:
-    miss = facts_imply(facts[n.id], [('inner whitespace rejected (raw text == joined tokens)', 'raw_eq'),
-                                     ('format flag holds', 'valid')], atom)
+    miss = facts_imply(facts[n.id], labels, atom)
     ctx.check(not miss, 'C03.selector-guard', con,
-              'the selector is returned only if the raw text between its first and last token equals the joined tokens and the format flag holds',
-              'the scoped-name scanner returns although %s is not enforced: names with internal whitespace / malformed components are '
-              'silently repaired instead of rejected' % ', '.join(l for l, _ in miss), f.loc(n.ast), instance='return-guard')
+              'the selector is returned only if the raw text between its first and last token equals the joined tokens, every scope component '
+              'and the last component match their regexes, and scopes appear only where allowed',
+              'the scoped-name scanner returns although `%s` is not enforced: names with internal whitespace / malformed components are '
+              'silently repaired or accepted instead of rejected' % '; '.join(l for l, _ in miss), f.loc(n.ast), instance='return-guard')
   # the raw text really is the slice from the first to the last consumed token
   okraw = False
   for n in walk_local(f.node):
@@ -52,30 +135,6 @@ def run(ctx):
       sl = n.value.slice
       okraw = u(sl.lower) == 'begin_char_num' and u(sl.upper) == 'end_char_num'
   ctx.check(okraw and joined, 'C03.selector-guard', con, 'raw text = line[first token start : last token end]', 'the raw-text slice changed', f.loc(), instance='raw-slice')
-  # flag components
-  comps = []
-  for n in walk_local(f.node):
-    if isinstance(n, ast.Assign) and flag and u(n.targets[0]) == flag:
-      comps.append(('=', n.value))
-    elif isinstance(n, ast.AugAssign) and flag and u(n.target) == flag:
-      comps.append((type(n.op).__name__, n.value))
-  texts = [u(v).replace(' ', '') for _, v in comps]
-  need = {
-      'every scope component matches the scope regex': lambda t: 'scope_re.match(' in t and 'scope_parts[:-1]' in t and t.startswith('all('),
-      'the last component matches the selector regex': lambda t: 'selector_re.match(scope_parts[-1])' in t,
-      'scopes only where allowed': lambda t: 'scoped' in t and 'len(scope_parts)==1' in t,
-  }
-  for label, pred in need.items():
-    ctx.check(any(pred(t) for t in texts), 'C03.selector-guard', con, label, 'the format flag no longer requires: %s' % label, f.loc(), instance=label)
-  ctx.check(all(op in ('=', 'BitAnd') for op, _ in comps) and comps, 'C03.selector-guard', con, 'the flag components are conjoined (&=)',
-            'the format flag is combined with %s' % [op for op, _ in comps], f.loc(), instance='conjunction')
-  res = {}
-  for n in walk_local(f.node):
-    if isinstance(n, ast.Assign) and u(n.targets[0]) in ('scope_re', 'selector_re'):
-      res.setdefault(u(n.targets[0]), []).append(u(n.value))
-  ctx.check(res.get('selector_re') == ['MODULE_RE'] and 'IDENTIFIER_RE' in res.get('scope_re', []), 'C03.selector-guard', con,
-            'scope components are identifiers (dotted only for references), the selector is a dotted name',
-            'component regexes changed: %s' % res, f.loc(), instance='regexes')
 
   # ---- C03.kinds
   produced = set()
@@ -157,16 +216,25 @@ def run(ctx):
   # ---- C03.split
   pk = ctx.func('config_parser.parse_binding_key')
   sp = ctx.func('config_parser.parse_scoped_selector')
-  def rsplits(fn):
-    return [(u(cc.args[0]), u(cc.args[1]) if len(cc.args) > 1 else next((u(k.value) for k in cc.keywords if k.arg == 'maxsplit'), None), cc.func.attr)
-            for cc in walk_local(fn.node) if isinstance(cc, ast.Call) and isinstance(cc.func, ast.Attribute) and cc.func.attr in ('split', 'rsplit')]
-  ctx.check(rsplits(pk) == [("'.'", '1', 'rsplit')], 'C03.split', construct(pk), "the parameter is split off at the last '.'",
-            'binding keys are split with %s: `a/b/c.d.e` no longer means configurable c.d, parameter e' % rsplits(pk), pk.loc(), instance='last-dot')
-  ctx.check(rsplits(sp) == [("'/'", '1', 'rsplit')], 'C03.split', construct(sp), "the scope is split off at the last '/'",
-            'scoped selectors are split with %s: `a/b/c` no longer means scope a/b' % rsplits(sp), sp.loc(), instance='last-slash')
-  okparts = any(isinstance(n, ast.Assign) and u(n.value) == "''.join(scope_selector_list[:-1])" for n in walk_local(sp.node)) and \
-      any(isinstance(n, ast.Assign) and u(n.value) == 'scope_selector_list[-1]' for n in walk_local(sp.node))
-  ctx.check(okparts, 'C03.split', construct(sp), 'scope = everything before the last slash, selector = the rest', 'scope/selector parts changed', sp.loc(), instance='parts')
+  for fn, sepc, inst, good, bad_msg, spec in (
+      (pk, '.', 'last-dot', "the parameter is split off at the last '.'; without a '.' the whole key is the selector",
+       'binding keys are not split at the last `.`: `a/b/c.d.e` no longer means configurable c.d, parameter e (or a key without `.` is no longer a bare selector)',
+       {True: (None, ('HEAD',), ('TAIL',)), False: (None, ('X',), ())}),
+      (sp, '/', 'last-slash', "the scope is split off at the last '/'; without a '/' the scope is empty",
+       'scoped selectors are not split at the last `/`: `a/b/c` no longer means scope a/b, selector c',
+       {True: (('HEAD',), ('TAIL',)), False: ((), ('X',))})):
+    got = {}
+    why = ''
+    for has in (True, False):
+      try:
+        got[has] = split_semantics(fn, sepc, has)
+      except Uninterpreted as e:
+        raise AnalysisError('%s: the splitting code uses a form this rule cannot interpret (%s)' % (fn.qual, e))
+      want = spec[has]
+      okc = got[has] is not None and len(got[has]) == len(want) and all(w is None or g_ == w for g_, w in zip(got[has], want))
+      if not okc:
+        why += ' [%s `%s`: returns %s, expected %s]' % ('with' if has else 'without', sepc, show(got[has]), show(want))
+    ctx.check(not why, 'C03.split', construct(fn), good, bad_msg + why, fn.loc(), instance=inst)
 
   eos(ctx, 'C03.eos')
   normal_form(ctx)
@@ -292,3 +360,187 @@ def normal_form(ctx):
              'a comment or line break after this kind of value (e.g. `@name()  # note`, or before `,` / `]` in a multi-line container) is a syntax error, '
              'so two layouts of the same statements no longer give the same configuration' % (n.text() if n else 'no consuming call', n.lineno if n else '?'),
              m.loc(n.ast) if n else m.loc(), instance='trailing-skip')
+
+
+class Uninterpreted(Exception):
+  pass
+
+
+def show(v):
+  if v is None:
+    return 'None'
+  return '(' + ', '.join('*' if x is None else ("''" if x == () else '+'.join(x)) if isinstance(x, tuple) else str(x) for x in v) + ')'
+
+
+def split_semantics(fn, sep, has):
+  """Abstractly runs the tail of `fn` starting at its (r)split / (r)partition
+  statement, for a text that does (`has`) or does not contain `sep`.
+  Strings are tuples of atoms: HEAD / TAIL = text before / after the *last*
+  separator, HEAD1 / TAIL1 = before / after the *first* one, X = the whole
+  text, SEP; () is the empty string.  Returns the returned tuple."""
+  body = [st for st in fn.node.body if not (isinstance(st, ast.Expr) and isinstance(st.value, ast.Constant))]
+
+  def split_call(n):
+    return isinstance(n, ast.Call) and isinstance(n.func, ast.Attribute) and n.func.attr in ('rsplit', 'split', 'rpartition', 'partition') \
+        and isinstance(n.func.value, ast.Name) and n.args and isinstance(n.args[0], ast.Constant) and n.args[0].value == sep
+  start = None
+  recv = None
+  for i, st in enumerate(body):
+    for n in ast.walk(st):
+      if split_call(n) and start is None:
+        start, recv = i, n.func.value.id
+  if start is None:
+    raise Uninterpreted('no split at %r' % sep)
+  env = {recv: ('X',)}
+
+  class Ret(Exception):
+    def __init__(self, v):
+      self.v = v
+
+  def truth(v):
+    if isinstance(v, bool):
+      return v
+    if isinstance(v, tuple) and all(isinstance(a, str) for a in v):
+      if v == ():
+        return False
+      if 'SEP' in v:
+        return True
+      raise Uninterpreted('truth value of %s' % (v,))
+    if isinstance(v, list):
+      return bool(v)
+    raise Uninterpreted('truth value')
+
+  def ev(e):
+    if isinstance(e, ast.Constant):
+      if isinstance(e.value, str):
+        return () if e.value == '' else (('SEP',) if e.value == sep else ('lit:' + e.value,))
+      return e.value
+    if isinstance(e, ast.Name):
+      if e.id in env:
+        return env[e.id]
+      raise Uninterpreted('name %s' % e.id)
+    if isinstance(e, (ast.Tuple, ast.List)):
+      return [ev(x) for x in e.elts]
+    if isinstance(e, ast.UnaryOp) and isinstance(e.op, ast.Not):
+      return not truth(ev(e.operand))
+    if isinstance(e, ast.UnaryOp) and isinstance(e.op, ast.USub) and isinstance(e.operand, ast.Constant):
+      return -e.operand.value
+    if isinstance(e, ast.Compare) and len(e.ops) == 1 and isinstance(e.ops[0], (ast.In, ast.NotIn)) \
+        and isinstance(e.left, ast.Constant) and e.left.value == sep and ev(e.comparators[0]) == ('X',):
+      return has if isinstance(e.ops[0], ast.In) else (not has)
+    if isinstance(e, ast.Compare) and len(e.ops) == 1 and isinstance(e.ops[0], (ast.Eq, ast.NotEq)):
+      a, b = ev(e.left), ev(e.comparators[0])
+      if isinstance(a, (int, list)) and isinstance(b, (int, list)) or (a in ((), ('SEP',)) and b in ((), ('SEP',))):
+        return (a == b) == isinstance(e.ops[0], ast.Eq)
+      raise Uninterpreted(u(e))
+    if isinstance(e, ast.BinOp) and isinstance(e.op, ast.Add):
+      a, b = ev(e.left), ev(e.right)
+      if isinstance(a, tuple) and isinstance(b, tuple):
+        return a + b
+      if isinstance(a, list) and isinstance(b, list):
+        return a + b
+      raise Uninterpreted(u(e))
+    if isinstance(e, ast.IfExp):
+      return ev(e.body) if truth(ev(e.test)) else ev(e.orelse)
+    if isinstance(e, ast.Subscript):
+      v = ev(e.value)
+      if not isinstance(v, list):
+        raise Uninterpreted(u(e))
+      if isinstance(e.slice, ast.Slice):
+        lo = ev(e.slice.lower) if e.slice.lower is not None else None
+        hi = ev(e.slice.upper) if e.slice.upper is not None else None
+        stp = ev(e.slice.step) if e.slice.step is not None else None
+        return v[lo:hi:stp]
+      i = ev(e.slice)
+      if not isinstance(i, int) or not (-len(v) <= i < len(v)):
+        raise Uninterpreted('index %s of %s' % (u(e.slice), v))
+      return v[i]
+    if isinstance(e, ast.Call) and u(e.func) == 'len' and len(e.args) == 1:
+      v = ev(e.args[0])
+      if isinstance(v, list):
+        return len(v)
+      raise Uninterpreted(u(e))
+    if isinstance(e, ast.Call) and u(e.func) in ('tuple', 'list') and len(e.args) == 1:
+      return ev(e.args[0])
+    if isinstance(e, ast.Call) and isinstance(e.func, ast.Attribute) and e.func.attr == 'join' and len(e.args) == 1:
+      j = ev(e.func.value)
+      v = ev(e.args[0])
+      if j != ():
+        raise Uninterpreted(u(e))
+      if isinstance(v, tuple):
+        return v           # ''.join(<str>) is that str
+      out = ()
+      for x in v:
+        if not isinstance(x, tuple):
+          raise Uninterpreted(u(e))
+        out += x
+      return out
+    if split_call(e):
+      if ev(e.func.value) != ('X',):
+        raise Uninterpreted(u(e))
+      m = e.func.attr
+      mx = [ev(a) for a in e.args[1:]] + [ev(k.value) for k in e.keywords if k.arg == 'maxsplit']
+      if m in ('rsplit', 'split'):
+        if mx != [1]:
+          return [('PIECE',), ('PIECE2',)] if has else [('X',)]     # all pieces: not a two-way split
+        if not has:
+          return [('X',)]
+        return [('HEAD',), ('TAIL',)] if m == 'rsplit' else [('HEAD1',), ('TAIL1',)]
+      if m == 'rpartition':
+        return [('HEAD',), ('SEP',), ('TAIL',)] if has else [(), (), ('X',)]
+      return [('HEAD1',), ('SEP',), ('TAIL1',)] if has else [('X',), (), ()]
+    raise Uninterpreted(u(e))
+
+  def assign(t, v):
+    if isinstance(t, ast.Name):
+      env[t.id] = v
+    elif isinstance(t, (ast.Tuple, ast.List)):
+      if not isinstance(v, list):
+        raise Uninterpreted('unpack of non-sequence')
+      star = [i for i, x in enumerate(t.elts) if isinstance(x, ast.Starred)]
+      if star:
+        i = star[0]
+        after = len(t.elts) - i - 1
+        if len(v) < len(t.elts) - 1:
+          raise Uninterpreted('unpack arity')
+        for x, y in zip(t.elts[:i], v[:i]):
+          assign(x, y)
+        assign(t.elts[i].value, v[i:len(v) - after])
+        for x, y in zip(t.elts[i + 1:], v[len(v) - after:]):
+          assign(x, y)
+      else:
+        if len(v) != len(t.elts):
+          raise Uninterpreted('unpack arity %d != %d (a text %s the separator raises here)' % (len(v), len(t.elts), 'with' if has else 'without'))
+        for x, y in zip(t.elts, v):
+          assign(x, y)
+    else:
+      raise Uninterpreted('assignment target')
+
+  def run(stmts):
+    for st in stmts:
+      if isinstance(st, ast.Assign) and len(st.targets) == 1:
+        assign(st.targets[0], ev(st.value))
+      elif isinstance(st, ast.If):
+        run(st.body if truth(ev(st.test)) else st.orelse)
+      elif isinstance(st, ast.Return):
+        raise Ret(ev(st.value) if st.value is not None else None)
+      elif isinstance(st, ast.Pass):
+        pass
+      else:
+        raise Uninterpreted(type(st).__name__)
+  # names bound before the split (other results carried through) are opaque strings
+  for st in body[:start]:
+    for n in ast.walk(st):
+      if isinstance(n, ast.Name) and isinstance(n.ctx, ast.Store) and n.id not in env:
+        env[n.id] = ('val:' + n.id,)
+  for a in fn.node.args.args:
+    env.setdefault(a.arg, ('val:' + a.arg,))
+  env[recv] = ('X',)
+  try:
+    run(body[start:])
+  except Ret as r:
+    v = r.v
+    if not isinstance(v, list):
+      raise Uninterpreted('return value')
+    return [x if isinstance(x, tuple) and all(isinstance(a, str) and not a.startswith('val:') for a in x) else None for x in v]
+  return None
